@@ -344,6 +344,9 @@ Inductive case :=
 | CDerive (durs : list (N * Z)) (svs : sv_table) (prfs : prf_table)
           (loc proto : N) (t : Z) (src dst : N) (srcHost dstHost : host)
           (impl_engine : list obs) (impl_host : list (option key))
+| CPair (prfs : prf_table) (fmt kt proto : N) (parent : key) (h1 h2 : host)
+        (impl1 impl2 : option key)
+    (* two hosts, same parent key / key type / protocol, keys from the real derivers *)
 | CWindow (epoch_dur aw t : Z) (ts : N) (impl : wres)
 | CAbs (nb : Z) (ts : N) (impl_sec impl_nsec : Z)
 | CRel (nb t : Z) (impl : option N).
@@ -407,6 +410,21 @@ Definition input_ok (fmt kt proto ia : N) (h : host) (out : option bytes) : bool
   | Some i => option_eqb fields_eqb (decode_input fmt i) (input_fields fmt kt proto ia h)
   end.
 
+(** two hosts under the same parent key: each key is the documented one, and equal keys
+    mean the same SCION host address *)
+Definition pack_eqb (a b : option (N * bytes)) : bool :=
+  option_eqb (fun x y => (fst x =? fst y) && bytes_eqb (snd x) (snd y)) a b.
+
+Definition pair_key (prf : key -> bytes -> key) (fmt kt proto : N) (parent : key) (h : host) : option key :=
+  option_map (prf parent) (model_input fmt kt proto 0 h).
+
+Definition pair_ok (h1 h2 : host) (doc1 doc2 o1 o2 : option key) : bool :=
+  option_eqb bytes_eqb o1 doc1 && option_eqb bytes_eqb o2 doc2 &&
+  match o1, o2 with
+  | Some a, Some b => if bytes_eqb a b then pack_eqb (pack_addr h1) (pack_addr h2) else true
+  | _, _ => true
+  end.
+
 Definition check (c : case) : N :=
   match c with
   | CConsts kts g types =>
@@ -422,8 +440,16 @@ Definition check (c : case) : N :=
     let me := engine_keys prf sv dur loc p t src dst sh dh in
     let mh := host_keys_at prf sv dur p t src dst sh dh in
     let miss := existsb miss_res me || existsb miss_key mh in
+    (* [prfs] holds the documented derivation (reference CBC-MAC): the served keys and the
+       keys of the real derivers must both equal model-over-reference *)
     Check.verdict (negb miss && all2 obs_eqb (map obs_of me) ie && all2 (option_eqb bytes_eqb) mh ih)
-                  (all2 (served_ok (dur src) t) ie ih)
+                  (miss || (all2 (served_ok (dur src) t) ie mh && all2 (option_eqb bytes_eqb) ih mh))
+  | CPair prfs fmt kt proto parent h1 h2 o1 o2 =>
+    let d1 := pair_key (prf_tab prfs) fmt kt proto parent h1 in
+    let d2 := pair_key (prf_tab prfs) fmt kt proto parent h2 in
+    let miss := miss_key d1 || miss_key d2 in
+    Check.verdict (negb miss && option_eqb bytes_eqb d1 o1 && option_eqb bytes_eqb d2 o2)
+                  (miss || pair_ok h1 h2 d1 d2 o1 o2)
   | CWindow ed aw t ts impl =>
     Check.verdict (wres_eqb (get_key_within_window ed aw t ts) impl) (window_ok aw t ts impl)
   | CAbs nb ts isec insec =>
@@ -445,6 +471,9 @@ Definition diag (c : case) : list (list N) :=
         (engine_keys prf sv dur loc p t src dst sh dh) ++
     map (fun k => match k with Some k => k | None => [] end)
         (host_keys_at prf sv dur p t src dst sh dh)
+  | CPair prfs fmt kt proto parent h1 h2 _ _ =>
+    map (fun k => match k with Some k => k | None => [] end)
+        [pair_key (prf_tab prfs) fmt kt proto parent h1; pair_key (prf_tab prfs) fmt kt proto parent h2]
   | CWindow ed aw t ts _ =>
     match get_key_within_window ed aw t ts with
     | WKey a b => [[1; Z.to_N a; Z.to_N b]] | WNone => [[0]] | WPanic => [[2]]
